@@ -32,7 +32,7 @@ def _woi_cfgs(w, full):
     out = []
     k = 0
     for ro in (True, False):
-        for vr in (None, (w, 3 * w), (None, 2.5 * w), (0.5 * w, None)):
+        for vr in (None, (w, 3 * w), (None, 2.5 * w), (0.5 * w, None), (w, 1.5 * w)):
             for mnp in (0, 1, 2):
                 mni_opts = (0, 2) if full else ((0, 2)[k % 2],)
                 ref_opts = refs if full else (refs[k % 4],)
@@ -49,7 +49,7 @@ def _noi_cfgs(w, full):
     k = 0
     for ni in (1, 2, 3, 5):
         for im in (True, False):
-            for vr in (None, (0.0, 3 * w)):
+            for vr in (None, (0.0, 3 * w), (0.5 * w, 2 * w)):
                 mnp_opts = (0, 1, 2) if full else ((0, 1, 2)[k % 3],)
                 for mnp in mnp_opts:
                     out.append({"slicer": "noi", "n_intervals": ni, "include_max": im, "value_range": vr, "min_n_points": mnp, "min_n_intervals": (0, 2, 3)[k % 3], "reference": refs[k % 4]})
